@@ -1763,6 +1763,15 @@ size_t ZSTD_estimateCCtxSize_usingCCtxParams(const ZSTD_CCtx_params* params)
     /* estimateCCtxSize is for one-shot compression. So no buffers should
      * be needed. However, we still allocate two 0-sized buffers, which can
      * take space under ASAN. */
+    if (params->useRowMatchFinder == ZSTD_ps_auto && ZSTD_rowMatchFinderSupported(cParams.strategy)) {
+        /* the compressor resolves the automatic mode on parameters adjusted to the source size (a small source can shrink
+         * windowLog below the row match finder's threshold): budget for whichever mode it ends up with */
+        size_t const rowSize = ZSTD_estimateCCtxSize_usingCCtxParams_internal(
+            &cParams, &ldmParams, 1, ZSTD_ps_enable, 0, 0, ZSTD_CONTENTSIZE_UNKNOWN, ZSTD_hasExtSeqProd(params), params->maxBlockSize);
+        size_t const noRowSize = ZSTD_estimateCCtxSize_usingCCtxParams_internal(
+            &cParams, &ldmParams, 1, ZSTD_ps_disable, 0, 0, ZSTD_CONTENTSIZE_UNKNOWN, ZSTD_hasExtSeqProd(params), params->maxBlockSize);
+        return MAX(rowSize, noRowSize);
+    }
     return ZSTD_estimateCCtxSize_usingCCtxParams_internal(
         &cParams, &ldmParams, 1, useRowMatchFinder, 0, 0, ZSTD_CONTENTSIZE_UNKNOWN, ZSTD_hasExtSeqProd(params), params->maxBlockSize);
 }
